@@ -50,14 +50,8 @@ def symptom_of(case, res):
     if "explen" in case and n != case["explen"]:
         return "length:%d->%d" % (case["explen"], n), b
     st, c1, c2, info = oracle.canon_bytes(b)
-    if st == "len":
-        d = oracle._dcache[b]
-        kinds = []
-        for l in (d[0], d[2]):
-            kinds.append("none" if l <= 0 else ("short" if l < n else ("long" if l > n else "ok")))
-        return "decode-length:" + "/".join(kinds), info
-    if st == "parse":
-        return "decode-unparsed", info
+    if st != "ok":
+        return decode_symptom(b), info
     e = case["exp"]
     alts = [e] + case.get("alt", [])
     if c1 in alts and c2 in alts:
@@ -101,3 +95,18 @@ def run(v, cases, binary, combos_for=None, sample_n=8):
         v.violation(cc, sym, detail)
     return {"lines_assembled": len(items), "held": held, "distinct_encodings_decoded": len(encs),
             "reference_validated_cases": sum(ok), "cases": len(cases)}
+
+
+def decode_symptom(b):
+    """symptom string for an encoding the decoders do not read as exactly one instruction"""
+    st, c1, c2, info = oracle.canon_bytes(b)
+    n = len(b) // 2
+    if st == "len":
+        d = oracle._dcache[b]
+        kinds = []
+        for l in (d[0], d[2]):
+            kinds.append("none" if l <= 0 else ("short" if l < n else ("long" if l > n else "ok")))
+        return "decode-length:" + "/".join(kinds)
+    if st == "parse":
+        return "decode-unparsed"
+    return None
